@@ -11,11 +11,14 @@
   Level A (theorems `join_*`, `lend_*`): masks are sets, `BitSetLike::iter` is the ascending
   enumeration. Level B (`level_b_*`): hibitset's `BitIter` over the four-layer representation
   computes exactly that enumeration. Residual assumption: a 64-bit word ↔ ascending list of its
-  set-bit positions (SpecsModel/Join/HiBitSet.lean header).
+  set-bit positions (SpecsModel/Join/HiBitSet.lean header). Level C (`level_c_*`, end of file):
+  that assumption proved — words are `Nat`s below `2^64`, the iterator and the bit-set operations
+  are transcribed with machine-word operations and shown to refine Level B.
 -/
 import SpecsModel.Join.LemmasSpec
 import SpecsModel.Join.LemmasHi
 import SpecsModel.Join.LemmasHiOps
+import SpecsModel.Join.WordPar
 namespace SpecsModel.C06
 open SpecsModel Join
 
@@ -362,5 +365,165 @@ example : HiBitSet.collect exLayers 10 (HiBitSet.fresh exLayers)
 /-- … and after `BitSet::remove` of both sides of a boundary. -/
 example : HiBitSet.items ((exLayers.remove 4095).remove 64) (HiBitSet.fresh ((exLayers.remove 4095).remove 64))
     = [5, 63, 4096, 262143, 262144, 16777215] := by decide +kernel
+
+/-! ### Level C: machine words
+
+  Level B's residual assumption — a 64-bit word is the ascending list of its set-bit positions, with
+  the table of word operations in the header of SpecsModel/Join/HiBitSet.lean — is a theorem at this
+  level. A word is a `Nat` below `2^64`; `HiBitSet.bits` lists its set positions; hibitset's
+  `BitIter::next` / `handle_level`, `BitSet::{add, remove, contains}` and the composites are
+  transcribed with `&`, `|`, `!`, `<<`, `>>`, `trailing_zeros` as the Rust source has them
+  (SpecsModel/Join/{Word, WordIter, WordSet}.lean) and proved to commute with `bits`.
+  What remains assumed about hibitset: nothing at the level of words; the `Vec` growth of `BitSet`
+  (`extend` / `fill_up`: a word beyond `len` reads as 0) is abstracted as at Level B. -/
+
+section LevelC
+open HiBitSet
+
+/-- **C06 (e), Level C, the table.** Every line of the word ↔ list correspondence, for every
+    `usize`. Shift amounts are below 64 wherever the code shifts (`b < 64` here; in the code:
+    `trailingZeros_lt`, `row_lt`, `averageOnes64_lt`). -/
+theorem level_c_words (w : Nat) (hw : w < 2 ^ 64) :
+    Word (bits w) ∧ ofBits (bits w) = w ∧ (bits w = [] ↔ w = 0) ∧
+    (∀ b rest, bits w = b :: rest →
+      trailingZeros w = b ∧ b < 64 ∧ bits (w &&& wnot (shl 1 (trailingZeros w))) = rest) ∧
+    (∀ b, b < 64 →
+      bits (w &&& (shl 1 b - 1)) = lo b (bits w) ∧ bits (w &&& wnot (shl 1 b - 1)) = hi b (bits w) ∧
+      bits (w ||| shl 1 b) = wAdd b (bits w) ∧ bits (w &&& wnot (shl 1 b)) = wDel b (bits w) ∧
+      ((w &&& shl 1 b ≠ 0) ↔ (bits w).contains b = true)) ∧
+    (∀ v, bits (w &&& v) = wInter (bits w) (bits v) ∧ bits (w ||| v) = wUnion (bits w) (bits v) ∧
+      bits (w ^^^ v) = wXor (bits w) (bits v)) ∧
+    bits (wnot w) = wNot (bits w) ∧ wnot w = 2 ^ 64 - 1 - w :=
+  ⟨word_bits w, ofBits_bits hw, bits_eq_nil hw,
+   fun b _ h => ⟨trailingZeros_eq_head h,
+     ((mem_bits w b).mp (by rw [h]; exact List.mem_cons_self)).1, bits_clear_first h⟩,
+   fun _ hb => ⟨bits_lowmask w hb, bits_highmask w hb, bits_set w hb, bits_clear w hb,
+     and_bit_ne_zero w hb⟩,
+   fun v => ⟨bits_and w v, bits_or w v, bits_xor w v⟩, bits_wnot w, wnot_eq_sub hw⟩
+
+/-- … and of the index arithmetic: `prefix | bit` and the `u32` shift `idx << BITS` are `+` and
+    `* 64` on the values that occur, and `Row::{row, offset}` are the base-64 digits / quotients of
+    an index. -/
+theorem level_c_index :
+    (∀ p b, p % 64 = 0 → b < 64 → p ||| b = p + b) ∧ (∀ x, x < 2 ^ 26 → shl32 x 6 = x * 64) ∧
+    (∀ id, row id 0 = id % B ∧ row id 6 = id / B % B ∧ row id 12 = id / (B * B) % B ∧
+      row id 18 = id / (B * B * B) % B ∧ offset id 6 = id / B ∧ offset id 12 = id / (B * B) ∧
+      offset id 18 = id / (B * B * B) ∧ row id 0 < 64 ∧ rmask id 0 = 2 ^ (id % 64)) ∧
+    (∀ id, id < 2 ^ 24 → id = ((row id 18 * 64 + row id 12) * 64 + row id 6) * 64 + row id 0) :=
+  ⟨fun _ _ hp hb => or_eq_add hp hb, fun _ h => shl32_six h,
+   fun id => by
+     obtain ⟨a, b, c, d, e, f, g⟩ := rows_offsets id
+     refine ⟨a, b, c, d, e, f, g, row_lt id 0, ?_⟩
+     rw [rmask_eq]; simp,
+   fun _ h => (index_decompose h).1⟩
+
+/-- **C06 (e), Level C, one step.** The word-level `BitIter::next` (`wnext`, transcribed from
+    src/iter/mod.rs) commutes with the abstraction: on every state satisfying the word invariant it
+    computes the Level-B `next` of the abstracted state, re-establishes the invariant (so no `<<`
+    ever loses a bit) and yields an index inside the index space. -/
+theorem level_c_next (WL : WLayers) (hL : WL.OK) (s : WIt) (hs : s.OK) :
+    (wnext WL s).map (fun r => (r.1, r.2.toIt)) = HiBitSet.next WL.toLayers s.toIt ∧
+    (∀ x s', wnext WL s = some (x, s') → s'.OK ∧ x < MAXIDX) :=
+  ⟨wnext_refines hL hs, fun _ _ h => ⟨wnext_ok hL hs h, wnext_lt hL hs h⟩⟩
+
+/-- **C06 (e), Level C, drained.** The word-level iterator yields the very list Level B talks
+    about … -/
+theorem level_c_collect (WL : WLayers) (hL : WL.OK) (n : Nat) :
+    wcollect WL n (wfresh WL) = collect WL.toLayers n (fresh WL.toLayers) := by
+  rw [wcollect_refines hL n _ (wfresh_ok hL), wfresh_toIt]
+
+/-- … hence, on word-level layers with sound summaries (`WLayers.Sound`: a non-zero word has its
+    summary bit set), exactly the indices for which the word-level `contains` holds, ascending, each
+    once. (`MAXIDX` calls of `next` always suffice.) -/
+theorem level_c_enumerates (WL : WLayers) (hL : WL.OK) (hS : WL.Sound) (n : Nat) (hn : MAXIDX ≤ n) :
+    wcollect WL n (wfresh WL) = (List.range MAXIDX).filter WL.contains := by
+  have hwf := wf_toLayers hL hS
+  have hlen : (items WL.toLayers (fresh WL.toLayers)).length ≤ n := by
+    have := (wordInv_fresh hL hwf).2.2
+    rw [wfresh_toIt] at this
+    exact Nat.le_trans this hn
+  rw [level_c_collect WL hL n, level_b_enumerates _ hwf n hlen]
+  apply List.filter_congr
+  intro i _
+  exact contains_toLayers WL i
+
+/-- **C06 (e), Level C, `BitSet`.** The word-level `add`, `remove`, `contains` (src/lib.rs, with the
+    `Row` arithmetic of src/util.rs) are the Level-B operations under `bits`, for every index. -/
+theorem level_c_bitset_ops (WL : WLayers) (hL : WL.OK) (id : Nat) :
+    (WL.add id).toLayers = WL.toLayers.add id ∧ (WL.add id).OK ∧
+    (WL.remove id).toLayers = WL.toLayers.remove id ∧ (WL.remove id).OK ∧
+    WL.contains id = WL.toLayers.contains id :=
+  ⟨toLayers_add hL id, ok_add hL id, toLayers_remove hL id, ok_remove hL id,
+   (contains_toLayers WL id).symm⟩
+
+/-- The composites of src/ops.rs. -/
+theorem level_c_composites (a b : WLayers) :
+    (a.and b).toLayers = a.toLayers.and b.toLayers ∧ (a.or b).toLayers = a.toLayers.or b.toLayers ∧
+    a.not.toLayers = a.toLayers.not ∧ (a.xor b).toLayers = a.toLayers.xor b.toLayers ∧
+    WLayers.all.toLayers = Layers.all :=
+  ⟨toLayers_and a b, toLayers_or a b, toLayers_not a, toLayers_xor a b, toLayers_all⟩
+
+/-- **C06 (e), Level C, end to end for `BitSet`.** Whatever in-range `add` / `remove` history built
+    a word-level `BitSet` from `BitSet::new()`, the word-level `BitIter` over it yields exactly the
+    members of the Level-A set, ascending, each once. -/
+theorem level_c_bitset (ops : List (Bool × Nat)) (h : ∀ o ∈ ops, o.2 < MAXIDX) (n : Nat)
+    (hn : MAXIDX ≤ n) :
+    wcollect (wlayersAfter ops) n (wfresh (wlayersAfter ops)) =
+      (List.range MAXIDX).filter (bsetAfter ops).mem := by
+  obtain ⟨hok, href⟩ := wlayersAfter_refines ops
+  obtain ⟨hwf, hmem⟩ := level_b_bitset ops h
+  have hlen : (items (layersAfter ops) (fresh (layersAfter ops))).length ≤ n := by
+    rw [items_fresh_eq hwf]
+    have := List.length_filter_le (layersAfter ops).contains (List.range (B * B * B * B))
+    rw [List.length_range] at this
+    exact Nat.le_trans this hn
+  rw [level_c_collect _ hok n, href, level_b_enumerates _ hwf n hlen]
+  apply List.filter_congr
+  intro i hi
+  exact hmem i (List.mem_range.mp hi)
+
+/-- **C06 (e), Level C, end to end for joins.** For every world whose bit sets are given as machine
+    words (`WLWorld`, every word a `usize`) and represent the Level-A world, and every member list:
+    the word-level `BitIter` over the word-level tuple mask (`BitAnd` tree of the composites) yields
+    exactly the Level-A key list of the join. -/
+theorem level_c_join_keys (wl : WLWorld) (hwl : wl.OK) (w : JWorld) (h : LRepr wl.toLWorld w)
+    (hw : w.Bdd MAXIDX) (ms : List Member) (n : Nat) (hn : MAXIDX ≤ n) :
+    wcollect (wtupleLayers wl ms) n (wfresh (wtupleLayers wl ms)) = (tupleMask w ms).toList MAXIDX := by
+  obtain ⟨href, hok⟩ := wtupleLayers_refines wl hwl ms
+  obtain ⟨hwf, _⟩ := tupleLayers_represents h ms
+  have hlen : (items (tupleLayers wl.toLWorld ms) (fresh (tupleLayers wl.toLWorld ms))).length ≤ n := by
+    rw [items_fresh_eq hwf]
+    have := List.length_filter_le (tupleLayers wl.toLWorld ms).contains (List.range (B * B * B * B))
+    rw [List.length_range] at this
+    exact Nat.le_trans this hn
+  rw [level_c_collect _ hok n, href]
+  exact level_b_join_keys wl.toLWorld w h hw ms n hlen
+
+/-! #### Non-vacuity at Level C -/
+
+/-- The word-level `BitSet` after adding both sides of the layer boundaries 63/64, 4095/4096,
+    262143/262144 and the last index; its layer-3 word and two layer-0 words. -/
+def exWLayers : WLayers :=
+  wlayersAfter [(true, 63), (true, 64), (true, 4095), (true, 4096), (true, 5), (true, 262144),
+    (true, 262143), (true, 16777215)]
+
+example : (exWLayers.l3, exWLayers.l0 0, exWLayers.l0 63, exWLayers.l2 63) =
+    (0x8000000000000003, 0x8000000000000020, 0x8000000000000000, 0x8000000000000000) := by
+  decide +kernel
+
+/-- The word-level iterator run by the kernel (through its fuel-bounded twin). -/
+example : wcollect exWLayers 10 (wfresh exWLayers) =
+    [5, 63, 64, 4095, 4096, 262143, 262144, 16777215] :=
+  wcollectF_eq _ 20 _ _ _ (by decide +kernel)
+
+/-- … and after `remove` of both sides of a boundary (the emptied layer-0 word clears its summary). -/
+example : wcollect ((exWLayers.remove 4095).remove 64) 10 (wfresh ((exWLayers.remove 4095).remove 64)) =
+    [5, 63, 4096, 262143, 262144, 16777215] :=
+  wcollectF_eq _ 20 _ _ _ (by decide +kernel)
+
+example : (exWLayers.contains 16777215, exWLayers.contains 16777214, exWLayers.contains 64) =
+    (true, false, true) := by decide +kernel
+
+end LevelC
 
 end SpecsModel.C06
